@@ -249,6 +249,13 @@ func wrap(w http.ResponseWriter, r *http.Request, tx types.Transaction) (
 			return nil
 		}
 
+		// A handler that returned without calling WriteHeader, Write or Flush
+		// gets an implicit 200 from net/http. Response rules (phase 3 and 4)
+		// have to evaluate that response as well.
+		if !i.wroteHeader {
+			i.WriteHeader(http.StatusOK)
+		}
+
 		// We look for interruptions triggered at phase 3 (response headers)
 		// and during writing the response body. If so, response status code
 		// has been sent over the flush already.
